@@ -35,6 +35,20 @@ func newMsg(rpc int, dir string, seq int) *Msg {
 
 func hdrMD(k string) metadata.MD { return metadata.Pairs(k, "v-"+k) }
 
+// untag is the tag of a received message: its payload without the padding of scenario option "sizes".
+func untag(p []byte) string { return strings.TrimRight(string(p), ".") }
+
+// padded gives the messages of a scenario with option "sizes" different, non-trivial sizes per call (the
+// earlier call's messages are the larger ones): whatever the library sizes by an earlier message -- a
+// recycled buffer, a remembered length -- meets a smaller one later.
+func (e *Env) padded(m *Msg, rpc int) *Msg {
+	if strings.Contains(e.sc.Opts, "sizes") {
+		pad := []int{3000, 1500, 1100}[rpc%3]
+		m.Payload = append(m.Payload, []byte(strings.Repeat(".", pad))...)
+	}
+	return m
+}
+
 const scribble = "zzz"
 
 // sendMsg is the message a sender hands to the library for (rpc, dir, seq). Normally a fresh object; with
@@ -47,7 +61,7 @@ func (e *Env) sendMsg(rpc int, dir string, seq int) *Msg {
 
 func (e *Env) sendMsgKey(k string, rpc int, dir string, seq int) *Msg {
 	if !strings.Contains(e.sc.Opts, "reuse") {
-		return newMsg(rpc, dir, seq)
+		return e.padded(newMsg(rpc, dir, seq), rpc)
 	}
 	e.nlock()
 	defer e.nunlock()
@@ -306,7 +320,7 @@ func (e *Env) unaryHandler(i int, ctx context.Context, dec func(interface{}) err
 			err := dec(&m)
 			rr.SrvRecvRes = append(rr.SrvRecvRes, es(err))
 			if err == nil {
-				rr.SrvRecv = append(rr.SrvRecv, string(m.Payload))
+				rr.SrvRecv = append(rr.SrvRecv, untag(m.Payload))
 				e.monitorPrefix(i, "srv")
 			}
 			e.rec.ev(tn, op, es(err))
@@ -453,7 +467,7 @@ func (e *Env) handlerOps(i int, tn string, stream grpc.ServerStream, ops []strin
 				if err != nil {
 					return err
 				}
-				rr.SrvRecv = append(rr.SrvRecv, string(m.Payload))
+				rr.SrvRecv = append(rr.SrvRecv, untag(m.Payload))
 				e.monitorPrefix(i, "srv")
 				e.received(&m)
 			}
@@ -467,7 +481,7 @@ func (e *Env) handlerOps(i int, tn string, stream grpc.ServerStream, ops []strin
 				rr.SrvRecvRes = append(rr.SrvRecvRes, es(err))
 				e.rec.ev(tn, "RecvMsg", es(err))
 				if err == nil {
-					rr.SrvRecv = append(rr.SrvRecv, string(m.Payload))
+					rr.SrvRecv = append(rr.SrvRecv, untag(m.Payload))
 					e.monitorPrefix(i, "srv")
 					e.received(&m)
 				}
@@ -600,7 +614,7 @@ func (e *Env) nestedInvoke(j int, ctx context.Context, tn string) {
 	e.where("")
 	rr.RecvRes = append(rr.RecvRes, es(err))
 	if err == nil {
-		rr.CliRecv = append(rr.CliRecv, string(resp.Payload))
+		rr.CliRecv = append(rr.CliRecv, untag(resp.Payload))
 	} else {
 		rr.Finals = append(rr.Finals, es(err))
 	}
@@ -711,7 +725,7 @@ func (e *Env) clientOps(i int, tn string, c *cli, ops []string) {
 			e.nlock()
 			rr.RecvRes = append(rr.RecvRes, es(err))
 			if err == nil {
-				rr.CliRecv = append(rr.CliRecv, string(resp.Payload))
+				rr.CliRecv = append(rr.CliRecv, untag(resp.Payload))
 			} else {
 				rr.Finals = append(rr.Finals, es(err))
 			}
@@ -801,7 +815,7 @@ func (e *Env) clientOps(i int, tn string, c *cli, ops []string) {
 				e.nlock()
 				stop := false
 				if err == nil {
-					rr.CliRecv = append(rr.CliRecv, string(m.Payload))
+					rr.CliRecv = append(rr.CliRecv, untag(m.Payload))
 					if rr.HdrAtFirstRecv == "" && len(rpc.Client2) == 0 && !(raceBuild && e.native) {
 						rr.HdrAtFirstRecv = mdStr(c.hdr)
 					}
@@ -1003,7 +1017,7 @@ func (e *Env) setup() {
 			e.ch = &httpgrpc.Channel{Transport: http.DefaultTransport, BaseURL: u}
 		} else {
 			u, _ := url.Parse("http://mem")
-			e.ch = &httpgrpc.Channel{Transport: newMemTransport(srv, sc.EnvGiveUp, strings.Contains(sc.Opts, "fullduplex"), strings.Contains(sc.Opts, "srvdl"), strings.Contains(sc.Opts, "noflush")), BaseURL: u}
+			e.ch = &httpgrpc.Channel{Transport: newMemTransport(srv, sc.EnvGiveUp, strings.Contains(sc.Opts, "fullduplex"), strings.Contains(sc.Opts, "srvdl"), strings.Contains(sc.Opts, "noflush"), strings.Contains(sc.Opts, "coalesce")), BaseURL: u}
 		}
 	case "direct":
 	default:
@@ -1051,7 +1065,16 @@ func (e *Env) body() {
 	if strings.Contains(e.sc.Opts, "seq0") {
 		// call 0 runs to completion before the others start: whatever the library remembers
 		// from one call is there when the next ones overlap
+		// ("seq0q": along one schedule only -- the state it leaves behind is what matters, and exploring the
+		// first call's schedules as well multiplies the space of the calls that follow)
+		quiet := strings.Contains(e.sc.Opts, "seq0q") && !e.native
+		if quiet {
+			mc.SetQuiet(true)
+		}
 		e.runRPC(0)
+		if quiet {
+			mc.SetQuiet(false)
+		}
 		first = 1
 	}
 	for i := first + 1; i < len(e.sc.RPCs); i++ {
